@@ -477,9 +477,15 @@ func superviseCheck(p Property, tier string, seed uint64) int {
 		return candidates[i].idx < candidates[j].idx
 	})
 	confirmed := 0
+	confirmStart := time.Now()
 	for _, c := range candidates {
 		if confirmed >= 3 {
 			break
+		}
+		if time.Since(confirmStart) > 6*time.Minute {
+			// a nomination is not a violation; what is left unconfirmed is only counted
+			merged.Count("nominations_left_unconfirmed")
+			continue
 		}
 		ph := phases[c.phase]
 		base := []string{"solo", p.ID(), "--tier", tier, "--seed", strconv.FormatUint(seed, 10), "--phase", strconv.Itoa(c.phase), "--idx", strconv.Itoa(c.idx)}
@@ -505,6 +511,21 @@ func superviseCheck(p Property, tier string, seed uint64) int {
 		kind := "died"
 		if co.hung {
 			kind = "hung"
+			// The process was still making progress in the matcher when the clock ran out (heartbeats of the
+			// lifted-budget run say so): exponential backtracking, not an endless loop or recursion, which
+			// the stuck-loop, compile and depth budgets catch on their own.
+			if strings.Count(string(co.stderr), "HEARTBEAT") >= 2 && !strings.Contains(string(co.stderr), "phase=compile") {
+				if k := isKnown(p.ID(), "KF-C03-1"); k != nil {
+					merged.Known[k.ID]++
+					if _, ok := merged.KnownEx[k.ID]; !ok {
+						gen := runChild(30*time.Second, append(base, "--gen-only")...)
+						var sr SoloResult
+						json.Unmarshal(bytes.TrimSpace(gen.stdout), &sr)
+						merged.KnownEx[k.ID] = sr.Case
+					}
+					continue
+				}
+			}
 		}
 		rf := &ReplayFile{Property: p.ID(), Clause: "process-" + kind, Detail: "the process running the library " + kind + " on this case (confirmed alone in a fresh process, budgets lifted, 60 s)",
 			Seed: seed, Phase: ph, PhaseIdx: c.phase, CaseIdx: c.idx, Tape: sr.Tape, Case: sr.Case, Crash: kind, CrashLog: crashSummary(string(co.stderr))}
